@@ -923,11 +923,12 @@ def arr_setitem(a, idx, value):
     if b is not None:
         if not _same_len(a.n, b.n):
             raise IndexError("boolean index did not match indexed array along dimension 0")
-        if isinstance(value, (Arr, MArr)):
+        if isinstance(value, (Arr, MArr, Selection)):
             sel_write(a, b, value)
             return
         p = _kinded(_scalar_pair(value), _value_kind(value))
-        a.write(lambda j: b.val(j), lambda j: p)
+        bg = b.getter()
+        a.write(lambda j: bg(j)[1], lambda j: p)
         return
     if isinstance(idx, IdxSet):
         if isinstance(value, (Arr, MArr)):
@@ -986,6 +987,19 @@ class Selection:
 
 
 def sel_write(a, b, value):
+    """a[b] = value with a boolean mask b.  Modelled for the idiom  a[m] = src[m]  (the value is a
+    selection of an equally long array by the *same* mask): position-wise copy where m holds."""
+    if isinstance(value, Selection):
+        if not _same_len(a.n, value.base_n):
+            raise Unsupported("a[m] = src[m2] with arrays of different length")
+        k = z3.Int("selw!k")
+        same = alg.simp(alg.iff(b.val(k), value.sel(k)[1]))
+        if same is not True:
+            raise Unsupported("a[m] = src[m2] with different masks (needs rank arithmetic)")
+        src = value.base_elem
+        bg = b.getter()
+        a.write(lambda j: bg(j)[1], lambda j: src(j))
+        return
     raise Unsupported("boolean-mask assignment of an array value")
 
 
